@@ -294,6 +294,8 @@ def classify(res, r, asm, lines):
         clause = norm(" ".join(t["text"][t["highlight_start"] - 1:t["highlight_end"] - 1] for t in clause_sp.get("text", [])))
         if not clause:
             clause = norm(lines[clause_sp["line_start"] - 1])
+        if clause.startswith("#[") or not clause:
+            clause = norm(" ".join(t["text"][t["highlight_start"] - 1:t["highlight_end"] - 1] for t in prim.get("text", [])))
         kind = msg.split(":")[0]
         site = origin_str(asm, ln)
         prim_text = norm(" ".join(t["text"][t["highlight_start"] - 1:t["highlight_end"] - 1] for t in prim.get("text", [])))
